@@ -46,6 +46,9 @@ def flagset(ctx: Ctx, t: Term, _depth: int = 0) -> Optional[FrozenSet[str]]:
         return a | b if t.op == '|' else a & b
     if isinstance(t, Call) and isinstance(t.func, ClassRef) and t.func.name == 'DataType' and len(t.args) == 1 and t.args[0] == Const(0):
         return frozenset()
+    if isinstance(t, Call) and type(t.func).__name__ == 'FuncRef':
+        fb = ctx.ev.flag_bits(t)     # built by a helper function of the package
+        return frozenset(n for _, n in fb) if fb is not None else None
     if isinstance(t, Const) and isinstance(t.value, int) and not isinstance(t.value, bool) and t.value == 0:
         return frozenset()  # the empty flag written as 0
     return None
